@@ -488,6 +488,57 @@ def class_constants_hoisted(text: str) -> str:
     return ast.unparse(tree)
 
 
+class IntroduceWalrus(ast.NodeTransformer):
+    """``x = <call>`` directly followed by ``if x:`` / ``if not x:`` / ``if x is (not) None:`` -> ``if (x := <call>):`` ..."""
+
+    @staticmethod
+    def _tests_only(test: ast.expr, name: str) -> bool:
+        if isinstance(test, ast.Name) and test.id == name:
+            return True
+        if isinstance(test, ast.UnaryOp) and isinstance(test.op, ast.Not) and isinstance(test.operand, ast.Name) and test.operand.id == name:
+            return True
+        if isinstance(test, ast.Compare) and len(test.ops) == 1 and isinstance(test.ops[0], (ast.Is, ast.IsNot)) and isinstance(test.left, ast.Name) and test.left.id == name \
+                and isinstance(test.comparators[0], ast.Constant) and test.comparators[0].value is None:
+            return True
+        return False
+
+    def _block(self, body):
+        out = []
+        index = 0
+        while index < len(body):
+            stmt = body[index]
+            nxt = body[index + 1] if index + 1 < len(body) else None
+            if isinstance(stmt, ast.Assign) and len(stmt.targets) == 1 and isinstance(stmt.targets[0], ast.Name) and isinstance(stmt.value, ast.Call) \
+                    and isinstance(nxt, ast.If) and self._tests_only(nxt.test, stmt.targets[0].id):
+                name = stmt.targets[0].id
+                walrus = ast.NamedExpr(target=ast.Name(id=name, ctx=ast.Store()), value=stmt.value)
+
+                class Swap(ast.NodeTransformer):
+                    done = False
+
+                    def visit_Name(self, node):
+                        if node.id == name and isinstance(node.ctx, ast.Load) and not self.done:
+                            self.done = True
+                            return walrus
+                        return node
+
+                nxt.test = Swap().visit(nxt.test)
+                out.append(nxt)
+                index += 2
+                continue
+            out.append(stmt)
+            index += 1
+        return out
+
+    def generic_visit(self, node):
+        super().generic_visit(node)
+        for field in ("body", "orelse", "finalbody"):
+            block = getattr(node, field, None)
+            if isinstance(block, list) and block and isinstance(block[0], ast.stmt) and not isinstance(node, ast.ClassDef) and not isinstance(node, ast.Module):
+                setattr(node, field, self._block(block))
+        return node
+
+
 class ExpandTernary(ast.NodeTransformer):
     """``x = a if c else b`` -> ``if c: x = a`` / ``else: x = b``; ``return a if c else b`` -> two returns"""
 
@@ -584,6 +635,7 @@ TRANSFORMS = {
     "nest": ("every 'if a and b' without else split into nested ifs", _by_transformer(NestConjunctions)),
     "continue": ("every loop body that is one if-block turned into 'if not c: continue'", _by_transformer(LoopContinue)),
     "ternary": ("every conditional expression that is assigned or returned expanded into if/else", _by_transformer(ExpandTernary)),
+    "walrus": ("every 'x = call(); if x:' turned into 'if (x := call()):'", _by_transformer(IntroduceWalrus)),
     "typing": ("every annotation modernised: X | None, A | B, list[...], dict[...]", _by_transformer(ModernTyping)),
     "strconst": ("every string literal used twice or more in a module hoisted into a module-level constant", string_constants_hoisted),
     "clsconst": ("every string literal used twice or more by the methods of a class hoisted into a private class constant", class_constants_hoisted),
